@@ -28,6 +28,7 @@ META["explanation"] += ' R03.8 the close function stores the closed sentinel on 
 META["explanation"] += ' R03.5 / R19.1 treat fallback combinators (unwrap_or_default, unwrap_or_else, or_else, map_or ..) on a failed upgrade as a fresh counter. R01.4e every Ready(Some) of a subscriber poll path (both flavours) is dominated by the poll leaf. R03.9 asserting non-blocking acquisitions (try_read / try_write / try_lock + unwrap, and the Lock helpers built from them) are called from Drop impls only.'
 META["explanation"] += ' Shared with C19: R19.1 (every handle of one observable shares one owner counter).'
 META["explanation"] += " R03.9 an asserting (unwrapped) non-blocking *write* acquisition of the state lock is violated everywhere, also in the last owner's Drop (readers may hold the lock then). R01.4b the ready clause rejects `observed != version` (true after close stored 0)."
+META["explanation"] += ' R03.10 a checked subtraction between the current and the observed version in the poll leaf is dominated by the comparison that makes it safe (version 0 = closed).'
 
 
 def run(ctx):
@@ -85,6 +86,7 @@ def run(ctx):
 
     # R03.6 closed => None, never parked ---------------------------------------
     leaf.check_closed_clause(ctx, "R03.6", sentinel)
+    leaf.check_no_version_underflow(ctx, "R03.10")   # a poll after the end answers None: it does not panic on the way to the closed test
     leaf.check_ready_clause(ctx, "R01.4")   # .. and never Some once closed: Ready(Some) only under observed < version (version 0 is never greater)
     from . import c16
     c16.ready_from_leaf(ctx, "R01.4e")   # ... and no poll path answers Some without asking the leaf (a reset subscriber after the end)
